@@ -400,14 +400,14 @@ fn run(ctx: &mut Ctx) {
 
     // (3) random operation sequences (length <= 8) on random programs
     let mut rng = ctx.rng(10);
-    let n = if ctx.quick() { 6_000 } else { 150_000 };
+    let n = if ctx.quick() { 6_000 } else { 500_000 };
     for _ in 0..n {
         let h = random_hist(&mut rng, &pool, 0, 8);
         emit_hist(ctx, &h);
     }
 
     // (4) pairs: the same content reached by different histories
-    let n = if ctx.quick() { 2_000 } else { 40_000 };
+    let n = if ctx.quick() { 2_000 } else { 120_000 };
     for _ in 0..n {
         let a = random_hist(&mut rng, &pool, 0, 4);
         let b = match rng.below(5) {
